@@ -141,3 +141,74 @@ package sqlite
 //@   loop 2 invariant GvcIs[*schema.ModifyColumn](change) ==> change.(*schema.ModifyColumn) != nil && change.(*schema.ModifyColumn).To != nil && change.(*schema.ModifyColumn).To.Name == column.Name
 //@   loop 2 invariant GvcIs[*schema.RenameColumn](change) ==> change.(*schema.RenameColumn) != nil && change.(*schema.RenameColumn).To != nil && change.(*schema.RenameColumn).From != nil && change.(*schema.RenameColumn).To.Name == column.Name
 //@   loop 2 invariant change == nil || GvcIs[*schema.AddColumn](change) || GvcIs[*schema.ModifyColumn](change) || GvcIs[*schema.RenameColumn](change)
+
+// ---------------------------------------------------------------------------------------
+// C02: the SQLite column comparator - exact kind flags, nil or a ModifyColumn of the two
+// columns (this is the contract the generic walker assumes of every dialect), and nothing is
+// reported when a column is compared with itself.
+
+//@ extern func sqlx.DefaultValue(c *schema.Column) (s string, ok bool)
+//@   pure
+//@ extern func sqlx.Unquote(s string) (r string, err error)
+//@   pure
+//@ extern func sqlx.MayWrap(s string) (r string)
+//@   pure
+//@ func storedOrVirtual(s string) (r string)
+//@   trusted
+//@   pure
+
+//@ func (d *diff) typeChanged(from, to *schema.Column) (changed bool, err error)
+//@   requires from != nil && to != nil && from.Type != nil && to.Type != nil
+//@   requires GvcIs[*UserDefinedType](from.Type.Type) ==> from.Type.Type.(*UserDefinedType) != nil
+//@   requires GvcIs[*UserDefinedType](to.Type.Type) ==> to.Type.Type.(*UserDefinedType) != nil
+//@   pure
+//@   modifies nothing
+//@   ensures fails-iff-a-type-is-missing: (err != nil) == (from.Type.Type == nil || to.Type.Type == nil)
+//@   ensures same-type-value-is-unchanged: err == nil && from.Type.Type == to.Type.Type ==> !changed
+
+//@ func (d *diff) defaultChanged(from, to *schema.Column) (changed bool)
+//@   requires from != nil && to != nil
+//@   pure
+//@   modifies nothing
+//@   ensures same-column-is-unchanged: from == to ==> !changed
+
+//@ func (d *diff) generatedChanged(from, to *schema.Column) (changed bool)
+//@   requires from != nil && to != nil
+//@   modifies nothing
+//@   ensures same-column-is-unchanged: from == to ==> !changed
+
+//@ func (d *diff) ColumnChange(t *schema.Table, from, to *schema.Column, o *schema.DiffOptions) (r schema.Change, err error)
+//@   requires d != nil && from != nil && to != nil && from.Type != nil && to.Type != nil && sqlx.NoChange == nil
+//@   requires GvcIs[*UserDefinedType](from.Type.Type) ==> from.Type.Type.(*UserDefinedType) != nil
+//@   requires GvcIs[*UserDefinedType](to.Type.Type) ==> to.Type.Type.(*UserDefinedType) != nil
+//@   modifies nothing
+//@   ensures nil-or-a-modification-of-the-two-columns: err == nil && r != nil ==> GvcIs[*schema.ModifyColumn](r) && r.(*schema.ModifyColumn) != nil &&
+//@           r.(*schema.ModifyColumn).From == from && r.(*schema.ModifyColumn).To == to && r.(*schema.ModifyColumn).Change != schema.NoChange
+//@   ensures null-flag-iff-nullability-differs: err == nil && r != nil ==> (r.(*schema.ModifyColumn).Change&schema.ChangeNull != 0) == (from.Type.Null != to.Type.Null)
+//@   ensures nullability-change-is-reported: err == nil && from.Type.Null != to.Type.Null ==> r != nil
+//@   ensures no-flag-outside-null-type-default-generated: err == nil && r != nil ==> r.(*schema.ModifyColumn).Change&^(schema.ChangeNull|schema.ChangeType|schema.ChangeDefault|schema.ChangeGenerated) == 0
+//@   ensures fails-iff-a-type-is-missing: (err != nil) == (from.Type.Type == nil || to.Type.Type == nil)
+//@   ensures a-column-compared-with-itself-is-unchanged: err == nil && from == to ==> r == nil
+
+//@ func (d *diff) ReferenceChanged(from, to schema.ReferenceOption) (r bool)
+//@   modifies nothing
+//@   ensures same-action-is-unchanged: from == to ==> !r
+//@   ensures unset-means-no-action: (from == "" && to == schema.NoAction) || (from == schema.NoAction && to == "") ==> !r
+//@   ensures explicit-actions-compared-exactly: from != "" && to != "" ==> r == (from != to)
+
+//@ func sameFK(fk1, fk2 *schema.ForeignKey) (r bool)
+//@   requires fk1 != nil && fk2 != nil && fk1.Table != nil && fk2.Table != nil && fk1.RefTable != nil && fk2.RefTable != nil
+//@   requires (forall i int :: 0 <= i && i < len(fk1.Columns) ==> fk1.Columns[i] != nil)
+//@   requires (forall i int :: 0 <= i && i < len(fk2.Columns) ==> fk2.Columns[i] != nil)
+//@   requires (forall i int :: 0 <= i && i < len(fk1.RefColumns) ==> fk1.RefColumns[i] != nil)
+//@   requires (forall i int :: 0 <= i && i < len(fk2.RefColumns) ==> fk2.RefColumns[i] != nil)
+//@   modifies nothing
+//@   ensures same-iff-tables-and-column-names-agree: r == (fk1.Table.Name == fk2.Table.Name && fk1.RefTable.Name == fk2.RefTable.Name &&
+//@           len(fk1.Columns) == len(fk2.Columns) && len(fk1.RefColumns) == len(fk2.RefColumns) &&
+//@           (forall i int :: 0 <= i && i < len(fk1.Columns) ==> fk1.Columns[i].Name == fk2.Columns[i].Name) &&
+//@           (forall i int :: 0 <= i && i < len(fk1.RefColumns) ==> fk1.RefColumns[i].Name == fk2.RefColumns[i].Name))
+//@   loop 1 invariant 0 <= loopk && loopk <= len(fk1.Columns)
+//@   loop 1 invariant (forall i int :: 0 <= i && i < loopk ==> fk1.Columns[i].Name == fk2.Columns[i].Name)
+//@   loop 2 invariant 0 <= loopk && loopk <= len(fk1.RefColumns)
+//@   loop 2 invariant (forall i int :: 0 <= i && i < loopk ==> fk1.RefColumns[i].Name == fk2.RefColumns[i].Name)
+//@   loop 2 invariant (forall i int :: 0 <= i && i < len(fk1.Columns) ==> fk1.Columns[i].Name == fk2.Columns[i].Name)
